@@ -10,25 +10,32 @@ HARNESSES = [
     dict(name="disp", pkg="./internal/l2tp/", test="TestVerifC16Dispatch",
          files=[("internal/l2tp/zz_verif_c16_dispatch_test.go", "harness/C16/zz_verif_c16_dispatch_test.go")]),
 ]
-VARIANTS = ["repaired", "defective"]
-RULE = ("pair: two real ControlChannels (origins from {0,1,0x7ffd..0x8001,0xfffc..0xffff,random}, windows 1-4 (+default,16), "
+# one model = what /repo HEAD does; every C16 finding is fixed, so a regression to an old defect is a VIOLATION
+VARIANTS = ["repaired"]
+RULE = ("pair: two real ControlChannels (origins from {0,1,0x7ffd..0x8001,0xfffc..0xffff,random}, windows 1-4/8/16/default, "
         "max-retries 1-5, small RTO/ZLB delays) driven by a schedule of submit / deliver k-th in transit / duplicate / drop / "
-        "tick / set-window / inject ops; schedules are random under six network profiles (reliable, lossy, duplicating, "
-        "reordering, silent, mixed) and enumerated to depth 5 over an 8-op alphabet after three preludes. disp: the real "
-        "Component.Dispatch fed data messages and ZLBs with in-order, duplicate, future and wrapped Ns/Nr. seqless: boundary "
-        "pairs. Every op's observable (packets passed to the send callback, handed-to-machine flag, Tick return, dead "
-        "callback, ns/nr/cwnd/ssthresh/queue length/in-flight) is compared with the model. Non-trivial: at least one message "
-        "handed to a protocol machine and at least one drop/duplicate/out-of-order delivery/retransmission. Distinct: by case text.")
-TRUSTED = ["pkg/l2tp harness replicates the dispatch rule of internal/l2tp/dispatch.go:72-90 (ZLB through Recv unless the "
-           "channel has RecvZLB); the internal/l2tp harness checks the real Dispatch against the same model",
+        "tick / set-window / inject ops, each optionally with failing send-callback writes (f<j>: the (j+1)-th write of the "
+        "operation returns an error; first transmissions from Send and from the ACK path, retransmissions, ZLBs); random "
+        "schedules under six network profiles, long runs (60 messages), bursts reaching a window of 16, a send-fault stream, "
+        "and enumeration to depth 4 (5 thorough) over an 8-op alphabet after three preludes. disp / full / sccrq / rws / "
+        "sccrqdup / stopccn / overlap / idle: the real internal/l2tp Component — Dispatch on wire bytes for every message "
+        "type first-time and retransmitted, establishment with an advertised Receive Window Size, duplicate SCCRQ, StopCCN "
+        "acknowledgement, forced overlap of the runner's Tick with Recv, and the real runner loop with real timers on an idle "
+        "tunnel receiving a Hello. seqless: boundary pairs. Every op's observable (every write passed to the send callback "
+        "with its failed flag, handed-to-machine flag, Tick return, dead callback, ns/nr/cwnd/ssthresh/queue length/in-flight/"
+        "ZLB deadline) is compared with the model. Non-trivial: at least one message handed to a protocol machine and at "
+        "least one drop/duplicate/out-of-order delivery/retransmission. Distinct: by case text.")
+TRUSTED = ["pkg/l2tp harness replicates the dispatch rule of internal/l2tp/dispatch.go (ZLB -> RecvZLB, else Recv); the "
+           "internal/l2tp harness checks the real Dispatch against the same Gallina function",
            "time.Duration arithmetic is modelled on unbounded integers in ms (no int64 overflow of rtoInitial<<attempts)"]
 ASSUMPTIONS = ["fewer than 2^15 messages are submitted per direction (exactly-once theorem); beyond that a bounded packet "
                "lifetime is needed, which is not modelled",
-               "the send callback does not fail", "PeerRWS >= 1 and MaxRetries >= 1 after defaulting"]
+               "PeerRWS >= 1 and MaxRetries >= 1 after defaulting",
+               "C16_ack_owed: the writes issued by Tick succeed (Tick forgets a ZLB whose write failed)"]
 
 
 def route(case):
-    return "disp" if case.startswith(("disp", "sccrq", "full", "rws", "overlap", "stopccn", "sccrqdup")) else "chan"
+    return "disp" if case.startswith(("disp", "sccrq", "full", "rws", "overlap", "stopccn", "sccrqdup", "idle")) else "chan"
 
 
 ORIGINS = [0, 0, 1, 0x7ffd, 0x7ffe, 0x7fff, 0x8000, 0x8001, 0xfffc, 0xfffd, 0xfffe, 0xffff]
@@ -51,6 +58,43 @@ def gen_conf(rng, small=True):
 
 def origin(rng):
     return rng.choice(ORIGINS) if rng.random() < 0.85 else rng.randrange(65536)
+
+
+def add_faults(rng, ops, rate):
+    """append failing-write tokens: f<j> = the (j+1)-th write of that operation returns an error"""
+    out = []
+    for o in ops:
+        if o[0] in "sdujt" and rng.random() < rate:
+            o += ":f" + rng.choice(["0", "0", "0", "1", "0.1", "2"] if o[0] == "t" else ["0", "0", "0", "1", "2"])
+        out.append(o)
+    return out
+
+
+def gen_faulty(rng, n):
+    """send-callback failures: in Send, in the ACK path (window opened by an acknowledgement), in Tick
+    (retransmissions and ZLBs); then enough Ticks for the retransmit machinery to repair or give up"""
+    out = []
+    for i in range(n):
+        oa, ob = origin(rng), origin(rng)
+        w = rng.choice([1, 1, 2, 4])
+        maxr = rng.choice([2, 3, 5])
+        t, ops, k = 0, [], 0
+        for _ in range(rng.randrange(1, 4)):
+            ops.append("sA:%d:0:%d" % (100 + k, t) + rng.choice(["", "", ":f0"]))
+            k += 1
+        for _ in range(rng.randrange(1, 5)):
+            t += 20
+            ops += ["dB:0:%d" % t, "tB:%d" % (t + 60) + rng.choice(["", "", ":f0"]),
+                    "dA:0:%d" % (t + 70) + rng.choice(["", ":f0", ":f0", ":f1"])]
+            t += 100
+            if rng.random() < 0.4:
+                ops.append("sA:%d:0:%d" % (100 + k, t) + rng.choice(["", ":f0"]))
+                k += 1
+        for _ in range(rng.randrange(2, 14)):
+            t += rng.choice([110, 250, 450, 900])
+            ops.append(rng.choice(["tA:%d", "tA:%d", "tA:%d:f0", "dB:0:%d", "tB:%d", "dA:0:%d"]) % t)
+        out.append("pair %d %d 100 400 %d 50 %d 100 400 3 50 4 %s" % (oa, ob, maxr, w, " ".join(ops)))
+    return out
 
 
 def gen_pair(rng, nops, profile, hostile=False, nmsg=8, bigwin=False):
@@ -237,6 +281,7 @@ def gen_cases(rng, tier, budget):
     cases.append("overlap")
     cases.append("stopccn")
     cases.append("sccrqdup")
+    cases.append("idle 700")
     # advertised Receive Window Size through the real establishment path; exhaustive over the small grid
     for w in ["-", "0", "1", "2", "3", "4", "8", "16", "32"]:
         cases.append("rws lac %s 0 0" % w)
@@ -249,12 +294,17 @@ def gen_cases(rng, tier, budget):
     profs = sorted(PROFILES)
     for i in range(nrand):
         prof = profs[i % len(profs)]
-        cases.append(gen_pair(rng, rng.choice([8, 20, 40, 80]), prof, hostile=(i % 7 == 0)))
+        c = gen_pair(rng, rng.choice([8, 20, 40, 80]), prof, hostile=(i % 7 == 0))
+        if i % 5 == 2:
+            t = c.split()
+            c = " ".join(t[:13] + add_faults(rng, t[13:], rng.choice([0.05, 0.2, 0.5])))
+        cases.append(c)
     # long runs crossing the 16-bit wrap with many messages
     for i in range(40 if quick else 300):
         cases.append(gen_pair(rng, 400, ["reliable", "dup", "mixed"][i % 3] if i % 2 else profs[i % len(profs)],
                               nmsg=60, bigwin=(i % 2 == 1)))
     cases += gen_burst(rng, 150 if quick else 2000)
+    cases += gen_faulty(rng, 300 if quick else 4000)
     cases += enum_cases(4 if quick else 5)
     return cases
 
@@ -289,6 +339,11 @@ def monitor(case, line):
         return monitor_disp(case, line)
     if case.startswith("full"):
         return monitor_full(case, line)
+    if case.startswith("idle"):
+        if line.endswith("acked=0"):
+            return ("idle tunnel: an in-order Hello was accepted but no acknowledgement left within zlbDelay + 500 ms + slack: "
+                    "the runner does not come back for a ZLB deadline armed by Recv")
+        return None
     if case.startswith("sccrqdup"):
         if not line.endswith("tunnels=1"):
             return "one SCCRQ received twice (retransmission) was handed to the protocol machine twice: %s" % line
@@ -340,10 +395,11 @@ def monitor(case, line):
             subs[x].append(op.split(":")[1])
         if "[" in tok and "]" in tok:
             for q in [y for y in tok.split("[", 1)[1].split("]")[0].split(",") if y]:
-                if not q.startswith("z."):
-                    ever.setdefault(x, set()).add(q.split(".")[0])
+                if not q.lstrip("!").startswith("z."):
+                    ever.setdefault(x, set()).add(q.split(".")[0].lstrip("!"))
             for q in [y for y in tok.split("[", 1)[1].split("]")[0].split(",") if y]:
                 b, _, ns, _ = q.split(".")
+                b = b.lstrip("!")
                 if b == "z":
                     continue
                 if subs[x].count(b) == 1 and int(ns) != (orig[x] + subs[x].index(b)) % 65536:
@@ -362,6 +418,9 @@ def monitor(case, line):
             st = tok.rsplit("/", 1)[1].split(",")
             if len(st) >= 6 and int(st[5]) > max(wmax[x], 1):
                 return "side %s has %s messages in flight, peer window never exceeded %d" % (x, st[5], wmax[x])
+            if len(st) >= 6 and int(st[4]) > 0 and int(st[5]) == 0:
+                return ("side %s after op %s: %s message(s) queued but none in flight (attempts = 0): nothing will ever "
+                        "retransmit them or declare the tunnel dead" % (x, op, st[4]))
             if len(st) >= 7 and tok[:1] == "D" and tok[2:3] == "m" and st[6] == "z":
                 return "side %s processed a data message at op %s but no acknowledgement (ZLB timer) is scheduled" % (x, op)
     for x in "AB":
@@ -464,6 +523,8 @@ def classify(case, impl, model):
 
 
 def signature(case, impl, models):
+    if "defective" not in models:
+        return "none"
     if case.startswith("sccrqdup"):
         return "sccrq-retransmit-second-tunnel" if impl == models.get("defective") else "other:sccrqdup"
     if case.startswith("stopccn"):
@@ -555,7 +616,9 @@ def distribution(cases, impl):
             if tok.startswith("T"):
                 inner = tok.split("[", 1)[1].split("]")[0]
                 for q in [x for x in inner.split(",") if x]:
-                    if q.startswith("z."):
+                    if q.startswith("!"):
+                        d["failed_writes"] = d.get("failed_writes", 0) + 1
+                    if q.lstrip("!").startswith("z."):
                         d["zlbs_sent"] += 1
                     else:
                         d["retransmissions"] += 1
